@@ -8,7 +8,7 @@ import suites
 from suites import VARIANTS, VNAMES, hx
 from props import hexcommon as hc
 
-RULE = ("Three harness builds: serde, serde+strict-parser, serde+serde-buffered (thorough: all three; quick: the first two in "
+RULE = ("Four harness builds: serde, serde+strict-parser, serde+serde-buffered, serde+serde-buffered+strict-parser (thorough: all in full; quick: the first two in "
         "full and a sample on the third).  SERDE-MOCK: a scripted Deserializer issues every visitor event (str, string, char, "
         "bytes, byte_buf, integers, float, bool, unit, none) under both is_human_readable values: valid texts in every spelling, "
         "single-character damage, wrong lengths, bad prefixes, NON-ASCII strings with a multi-byte character at every early "
@@ -279,6 +279,7 @@ def run(ctx):
     run_config(ctx, "serde", True)
     run_config(ctx, "serde-strict", True)
     run_config(ctx, "serde-buffered", ctx.tier != "quick")
+    run_config(ctx, "serde-buffered-strict", ctx.tier != "quick")
     return finish(ctx)
 
 
